@@ -16,6 +16,7 @@ pub mod c11;
 pub mod c12;
 pub mod c13;
 pub mod c14;
+pub mod c15;
 pub mod c16;
 pub mod c17;
 pub mod c18;
@@ -40,6 +41,7 @@ pub fn registry(id: &str) -> Option<(&'static str, fn(&mut Ctx), ReplayFn)> {
         "C12" => ("C12", c12::run, c12::replay),
         "C13" => ("C13", c13::run, c13::replay),
         "C14" => ("C14", c14::run, c14::replay),
+        "C15" => ("C15", c15::run, c15::replay),
         "C16" => ("C16", c16::run, c16::replay),
         "C17" => ("C17", c17::run, c17::replay),
         "C18" => ("C18", c18::run, c18::replay),
@@ -49,7 +51,7 @@ pub fn registry(id: &str) -> Option<(&'static str, fn(&mut Ctx), ReplayFn)> {
     })
 }
 
-pub const ALL_IDS: &[&str] = &["C01", "C02", "C03", "C04", "C05", "C06", "C07", "C08", "C09", "C10", "C11", "C12", "C13", "C14", "C16", "C17", "C18", "C19", "C20"];
+pub const ALL_IDS: &[&str] = &["C01", "C02", "C03", "C04", "C05", "C06", "C07", "C08", "C09", "C10", "C11", "C12", "C13", "C14", "C15", "C16", "C17", "C18", "C19", "C20"];
 
 /// E4: replay every committed reproduction of this property.
 /// A file that matches an *open* known finding prints its KNOWN-FINDING line;
